@@ -146,11 +146,31 @@ class RenderMonitor(Monitor):
                     k = (c["basis"], q)
                     open_from[k] = min(open_from.get(k, T), c["end"])
         try:
+            # rendering is a query: either view may be asked for first and again afterwards, with the same answer,
+            # and the sequence it was sampled from keeps its timeline
+            if ctx.case_idx % 2:
+                first = sm.to_nested_dict(all_local=True)
+                glob = sm.to_nested_dict(all_local=False)
+            else:
+                glob = sm.to_nested_dict(all_local=False)
+                first = None
             loc = sm.to_nested_dict(all_local=True)
-            glob = sm.to_nested_dict(all_local=False)
+            ctx.count("view_orders_checked")
         except Exception as e:
             ctx.violation("nested-raises", f"to_nested_dict raised {type(e).__name__}: {str(e)[:200]}", "nested-raises")
             return
+        from vmon.snap import diff, state_key
+        snap2 = snapshot(seq)
+        if state_key(snap2) != state_key(snap):
+            ctx.violation("render-mutates", f"sampling / rendering changed the sequence: {diff(snap, snap2)[:3]}", "render-mutates")
+        if first is not None:
+            for basis, d in first["Local"].items():
+                for q, v in d.items():
+                    w = loc["Local"].get(basis, {}).get(q)
+                    if w is None or any(not np.array_equal(np.asarray(v[k]), np.asarray(w[k]), equal_nan=True) for k in ("amp", "det", "phase")):
+                        ctx.violation("render-repeat", f"atom {q} basis {basis}: the all-local view changed between two "
+                                      "renderings of the same samples", "render-repeat")
+                        break
         for basis, per_q in ref.items():
             for q, want in per_q.items():
                 ctx.count("atom_views_checked")
